@@ -43,8 +43,17 @@ class C18(Prop):
                 recs.append({'w': w, 'st': st})
             kind = rng.choice(['parse', 'parse', 'roundtrip', 'bincmd'])
             nsub = rng.choice([0, 0, 0, rng.randint(1, ns)])
+            b = rng.choice([0.0, 0.0, 0.5, 1.0, 2.0, 5.0, 20.0])
+            if kind == 'roundtrip' and rng.random() < 0.4:
+                # blocks that list their stations in their own order, or only some of them (nothing is binned: angles are matched
+                # by position there)
+                b = 0.0
+                for r in recs:
+                    rng.shuffle(r['st'])
+                    if rng.random() < 0.3:
+                        del r['st'][rng.randint(1, len(r['st'])):]
             yield {'kind': kind, 'recs': recs, 'crlf': rng.random() < 0.4, 'trailing_blank': rng.random() < 0.6,
-                   'omit_weight': rng.random() < 0.1, 'bin': rng.choice([0.0, 0.0, 0.5, 1.0, 2.0, 5.0, 20.0]),
+                   'omit_weight': rng.random() < 0.1, 'bin': b,
                    'nsub': nsub if kind in ('parse', 'roundtrip') else 0, 'sub_seed': rng.randrange(1 << 30)}
 
     # ------------------------------------------------------------------ file text
@@ -103,6 +112,15 @@ class C18(Prop):
             ref, wref = sc.parse_scatangle(fn, bin_size=case['bin'] or 1, _use_c=False)
             res['cmd_ref'] = self._canon(ref, wref)
             os.remove(new)
+            # the same through the hook the command line uses (option names as the option parser delivers them)
+            kw = sc.pre_inversion(bin_scatangle=True, location_pdf_file_path=[fn], number_location_samples=0,
+                                  bin_scatangle_size=case['bin'] or 1, parallel=False, mpi=False)
+            new2 = kw['location_pdf_file_path'][0]
+            res['hook_file_is_new'] = new2 != fn
+            r3, w3 = sc.parse_scatangle(new2, _use_c=False)
+            res['hook'] = self._canon(r3, w3)
+            if new2 != fn and os.path.exists(new2):
+                os.remove(new2)
         return res
 
     # ------------------------------------------------------------------ model
@@ -228,6 +246,12 @@ class C18(Prop):
             d = self._same(impl['cmd_ref'], impl['cmd'])
             if d:
                 out.append(('bincmd', 'file written by the binning command differs from the binned records: %s' % d, None))
+        if 'hook' in impl:
+            d = None if impl['hook_file_is_new'] else 'the hook returned the unbinned file'
+            d = d or self._same(impl['cmd_ref'], impl['hook'])
+            if d:
+                out.append(('bincmd', 'file produced by the command-line binning hook (bin size %r) differs from the binned records: %s'
+                            % (case['bin'] or 1, d), None))
         return out[:3]
 
     def nontrivial(self, case, impl):
